@@ -70,10 +70,20 @@ def make_classes():
 
     class VModel(TrainingModel):
         def __init__(self, rec: Rec, name: str, has_inf: bool, inf_only: bool, version: int):
-            super().__init__(has_inf, inf_only)
+            if (has_inf or not inf_only) and (len(name) + version) % 2 == 1:
+                # a subclass that fixes its flags after the base constructor ran (`super().__init__()` with the
+                # defaults, then `self.inference_thread_only = True`): the flags are public attributes, and every
+                # reader (wiring, synchronisation) is to see the values they have now
+                super().__init__()
+                self.has_inference_model, self.inference_thread_only = has_inf, inf_only
+            else:
+                super().__init__(has_inf, inf_only)
             self.rec, self.name, self.version = rec, name, version
 
         def _create_inference_model(self):
+            if getattr(self.rec, "slow_create", False):
+                import time as _t
+                _t.sleep(0.002)                    # copying a real model takes its time
             oid = self.rec.n_obj
             self.rec.n_obj += 1
             self.rec.ev("create", self.name, oid)
@@ -145,10 +155,18 @@ def make_classes():
             super().__init__()
             self.rec, self.names = rec, names
             self.held: dict[str, object] = {}
+            self.late = False       # fetch the models in setup() (on the inference thread), not when attached
 
         def on_inference_models_attached(self) -> None:
-            for k in self.names:
-                self.look(k)
+            if not self.late:
+                for k in self.names:
+                    self.look(k)
+
+        def setup(self) -> None:
+            super().setup()
+            if self.late:
+                for k in self.names:
+                    self.look(k)
 
         def look(self, k: str):
             try:
@@ -677,6 +695,8 @@ def run_launch_case(case: dict, driver=None):
             for t in trainers.values():
                 t.auto = True
             agent = VAgent(rec, list(models) + ["ghost"])
+            agent.late = (len(specs) + len(case["trainers"]) + round_) % 2 == 1
+            rec.slow_create = True
             try:
                 launch(Interaction(agent, Env()), models, {}, trainers, LaunchConfig(
                     states_dir=tmp / f"states{round_}", state_name_format="final.state",
